@@ -4,7 +4,11 @@ import (
 	"bytes"
 	"fmt"
 	"math/rand"
+	"net/url"
+	"runtime"
 	"strings"
+	"sync"
+	"sync/atomic"
 	"time"
 
 	"github.com/zitadel/saml/pkg/provider"
@@ -13,6 +17,7 @@ import (
 	"verif/harness/core"
 	"verif/harness/env"
 	"verif/harness/keys"
+	"verif/harness/reply"
 	"verif/harness/sim"
 	"verif/harness/spsim"
 	"verif/harness/verify"
@@ -216,6 +221,160 @@ func c04Query(r *core.Run, idx int, rng *rand.Rand) {
 	}
 }
 
+// c04EndToEnd covers "every record the SSO endpoint itself persisted": service providers with any consumer-binding mix
+// (also bindings written with white space around them, in other case, unknown ones) send an AuthnRequest; whatever the
+// SSO endpoint persists is completed and called back, and a Success that leaves the IdP must verify.
+func c04EndToEnd(r *core.Run, idx int, rng *rand.Rand) {
+	const wl = "records_persisted_by_sso"
+	c := conformantSSO(rng)
+	c.Host = ""
+	c.Signed = false
+	c.SPD.AuthnRequestsSigned, c.Want = "", ""
+	c.SPD.ACS = randACS(rng, "spx.example", c08Bindings, 4)
+	if len(c.SPD.ACS) == 0 {
+		c.SPD.ACS = []spsim.ACS{{Binding: c08Bindings[rng.Intn(len(c08Bindings))], Location: "https://spx.example/acs/only", Index: "0"}}
+	}
+	if rng.Intn(3) == 0 {
+		c.Req.ProtocolBinding = c08Bindings[rng.Intn(len(c08Bindings))]
+	}
+	u := randUser(rng, fmt.Sprintf("U_MK%dx", idx), idx%3 == 0)
+	e, call := c.run(rng, func(e *env.Env) {
+		e.W.AddUser(u)
+		e.W.UserFor = func(reqID, appID string) string { return u.UserID }
+	})
+	var bl []string
+	for _, a := range c.SPD.ACS {
+		bl = append(bl, fmt.Sprintf("%q", a.Binding))
+	}
+	class := "sso_then_callback|bindings=" + strings.Join(bl, ",")
+	desc := map[string]any{"consumer_services": c.SPD.ACS, "requested_binding": c.Req.ProtocolBinding}
+	r.Eval(class)
+	if call.Panic != "" {
+		r.Violate(core.Violation{Clause: "panic", Class: class, Reason: call.Panic, Workload: wl, Index: idx, Case: desc, Observed: call.Describe()})
+		return
+	}
+	ev := call.First("CreateAuthRequest")
+	if ev == nil || ev.Err {
+		r.Count("sso_requests_not_persisted", 1)
+		return
+	}
+	r.Count("records_persisted_by_sso", 1)
+	rec := e.W.Request(ev.Res)
+	if rec == nil {
+		return
+	}
+	rec.SetDone(true)
+	mv := fetchMeta(e, env.PathMetadata, "", nil)
+	cb := e.Do(env.Req{Path: env.PathLogin, Query: "id=" + url.QueryEscape(ev.Res)})
+	desc["persisted"] = map[string]any{"acs": rec.ACS, "binding": rec.Binding}
+	if cb.Panic != "" {
+		r.Violate(core.Violation{Clause: "panic", Class: class, Reason: cb.Panic, Workload: wl, Index: idx, Case: desc, Observed: cb.Describe()})
+		return
+	}
+	for i, m := range reply.AllMessages(cb.Rec) {
+		if !m.Success() {
+			continue
+		}
+		r.Count("success_replies_for_persisted_records", 1)
+		if mv.Cert == nil {
+			r.Violate(core.Violation{Clause: "published_certificate", Class: class, Reason: "metadata does not publish a usable signing certificate: " + mv.Err, Workload: wl, Index: idx, Case: desc, Observed: cb.Describe()})
+			return
+		}
+		fails, _, oerr := verifyEmitted(m, mv.Cert)
+		if oerr != nil {
+			r.Inconclusive("python oracle unavailable: " + oerr.Error())
+			return
+		}
+		for _, f := range fails {
+			r.Violate(core.Violation{Clause: f.Clause, Class: class, Reason: fmt.Sprintf("message %d of the callback reply for the record the SSO endpoint persisted (%q, %q): %s", i+1, rec.ACS, rec.Binding, f.Reason), Workload: wl, Index: idx, Case: desc, Observed: cb.Describe()})
+		}
+		if len(fails) == 0 {
+			r.Count("signatures_accepted_by_all_verifiers", 1)
+		}
+	}
+}
+
+// c04ConcurrentQueries: several answers about ONE user are produced at the same time (attribute queries with and
+// without AttributeValue designators, callbacks), over a slow connection; every one of them must verify, and the
+// storage's record of the user must be what it was.
+func c04ConcurrentQueries(r *core.Run, idx int, rng *rand.Rand) {
+	const wl = "answers_in_flight_together"
+	e := env.Static(env.Opts{SigAlg: []string{spsim.AlgRSASHA1, spsim.AlgRSASHA256}[rng.Intn(2)]})
+	d := stdSP(0)
+	mustRegister(e.W, d, "app1")
+	u := randUser(rng, fmt.Sprintf("U_MK%dx", idx), false)
+	u.Custom = append(u.Custom, sim.Custom{Name: "roles", Format: basicFormat, Values: []string{"admin" + randHex(rng, 2), "auditor", "user" + randHex(rng, 2), "ops"}})
+	e.W.AddUser(u)
+	e.W.UserFor = func(reqID, appID string) string { return u.UserID }
+	var dctr atomic.Int64
+	e.W.Delay = func(op string) {
+		if n := dctr.Add(1); n%3 == 0 {
+			time.Sleep(time.Duration(50+n%300) * time.Microsecond)
+		} else {
+			runtime.Gosched()
+		}
+	}
+	type res struct {
+		call *env.Call
+		what string
+	}
+	var mu sync.Mutex
+	var results []res
+	var wg sync.WaitGroup
+	for g := 0; g < 6; g++ {
+		wg.Add(1)
+		seed := rng.Int63()
+		go func(g int) {
+			defer wg.Done()
+			lr := rand.New(rand.NewSource(seed))
+			for k := 0; k < 6; k++ {
+				q := conformantQuery(lr, d, u.Username)
+				q.Destination = ""
+				q.Attrs = nil
+				what := "query"
+				if (g+k)%2 == 0 {
+					c := u.Custom[len(u.Custom)-1]
+					q.Attrs = []spsim.QAttr{{Name: c.Name, NameFormat: c.Format, Values: []string{c.Values[1+lr.Intn(len(c.Values)-1)]}}}
+					what = "query_naming_values"
+				}
+				onWrite := func() {
+					if dctr.Add(1)%2 == 0 {
+						time.Sleep(100 * time.Microsecond)
+					}
+				}
+				call := e.Do(env.Req{Method: "POST", Path: env.PathAttr, Body: q.XML(lr), CT: "text/xml", OnWrite: onWrite})
+				mu.Lock()
+				results = append(results, res{call, what})
+				mu.Unlock()
+			}
+		}(g)
+	}
+	wg.Wait()
+	r.Eval(fmt.Sprintf("in_flight_together|%d", idx))
+	for _, x := range results {
+		class := "in_flight_together|" + x.what
+		if x.call.Panic != "" {
+			r.Violate(core.Violation{Clause: "panic", Class: class, Reason: x.call.Panic, Workload: wl, Index: idx, Observed: x.call.Describe()})
+			continue
+		}
+		if !x.call.D.Success() {
+			continue
+		}
+		r.Count("answers_produced_side_by_side", 1)
+		fails, _, oerr := verifyEmitted(x.call.D, respCert())
+		if oerr != nil {
+			r.Inconclusive("python oracle unavailable: " + oerr.Error())
+			return
+		}
+		for _, f := range fails {
+			r.Violate(core.Violation{Clause: f.Clause, Class: class, Reason: "an answer produced while other answers about the same user were in flight: " + f.Reason, Workload: wl, Index: idx, Case: map[string]any{"user": u}, Observed: x.call.Describe()})
+		}
+	}
+	if mut := e.W.Mutated(); mut != "" {
+		r.Violate(core.Violation{Clause: "storage_record_changed", Class: "in_flight_together", Reason: "signed content is built from data the storage owns, which was written to while answers were produced: " + mut, Workload: wl, Index: idx})
+	}
+}
+
 func c04Metadata(r *core.Run, idx int, rng *rand.Rand) {
 	const wl = "metadata_signatures"
 	hostile := idx%5 < 3
@@ -361,13 +520,15 @@ func init() {
 		TimeoutQuick: 8 * time.Minute, TimeoutThorough: 40 * time.Minute,
 		Build: func(c *Ctx) []core.Workload {
 			r := c.Run
-			r.Rule = "signed artefacts are produced through the real handlers (login callback with POST / Redirect binding incl. empty consumer URL and consumer URLs with a query; attribute-query SOAP responses; signed metadata) with strings over all legal XML characters in every field that reaches signed content, for rsa-sha1 and rsa-sha256; each artefact is verified on its wire bytes by goxmldsig (V1) and by the python verifier (expat + own exclusive C14N + modpow, V2), redirect replies by the harness's HTTP-Redirect procedure on the raw query string; the certificate is the one the metadata KeyDescriptor and the certificate endpoint publish; on long-lived providers the response signing key is switched several times and every artefact must verify under the certificate published at that moment. Distinct = (artefact kind, binding, character class, algorithm, shape)."
+			r.Rule = "signed artefacts are produced through the real handlers (login callback with POST / Redirect binding incl. empty consumer URL and consumer URLs with a query; attribute-query SOAP responses; signed metadata) with strings over all legal XML characters in every field that reaches signed content, for rsa-sha1 and rsa-sha256; each artefact is verified on its wire bytes by goxmldsig (V1) and by the python verifier (expat + own exclusive C14N + modpow, V2), redirect replies by the harness's HTTP-Redirect procedure on the raw query string; the certificate is the one the metadata KeyDescriptor and the certificate endpoint publish; records the SSO endpoint itself persisted for service providers with any consumer-binding mix are completed and called back; several answers about one user are produced at the same time (queries with and without AttributeValue designators) and the storage's record must stay what it was; on long-lived providers the response signing key is switched several times and every artefact must verify under the certificate published at that moment. Distinct = (artefact kind, binding, character class, algorithm, shape)."
 			r.Assume("crypto/rsa, hashlib and expat are trusted; V1 and V2 are trusted jointly (a disagreement is reported)")
 			r.Require("verified_enveloped_assertion_signature", 100)
 			r.Require("verified_redirect_query_signature", 100)
 			r.Require("verified_query_enveloped_assertion_signature", 50)
 			r.Require("verified_metadata_signature", 50)
 			r.Require("signing_failure_cases", 30)
+			r.Require("records_persisted_by_sso", 50)
+			r.Require("answers_produced_side_by_side", 200)
 			r.Require("artefacts_after_key_changes", 300)
 			r.Require("class_c14n_plain", 100)
 			r.Require("class_c14n_special", 50)
@@ -376,6 +537,8 @@ func init() {
 				{Name: "attribute_query_signatures", N: c.Pick(150, 1500), Fn: c04Query},
 				{Name: "metadata_signatures", N: c.Pick(150, 1500), Fn: c04Metadata},
 				{Name: "key_rotation_sequences", N: c.Pick(40, 400), Fn: c04Rotation},
+				{Name: "records_persisted_by_sso", N: c.Pick(300, 3000), Fn: c04EndToEnd},
+				{Name: "answers_in_flight_together", N: c.Pick(20, 200), Fn: c04ConcurrentQueries},
 			}
 		},
 		After: func(c *Ctx) { verify.Py.Close() },
